@@ -161,8 +161,12 @@ def run(ctx):
                 meta.append((label, 1 << 30, 0, verify))
     recs = []
     B = 4000 * 4
-    for i in range(0, len(lines), B):
-        evs, rc, err = core.run_drv(b, "\n".join(lines[i:i + B]) + "\n", wd, "o%d" % i, fork=True, timeout=1800)
+    # every open twice: the sanitizer build, and a build without optimisation (a copy or load written wider than the bytes a field
+    # owns is really made that wide there; the optimiser may narrow it again)
+    b0 = build.build("plain0")
+    n_guarded = len(lines)
+    for (bb, i) in [(b, i) for i in range(0, len(lines), B)] + [(b0, i) for i in range(0, n_guarded, B)]:
+        evs, rc, err = core.run_drv(bb, "\n".join(lines[i:i + B]) + "\n", wd, "o%d" % i, fork=True, timeout=1800)
         x0 = i // 4
         cur = {}
         for e in evs:
